@@ -22,6 +22,8 @@ ASSUMPTIONS = ['termination is observed within a deterministic round bound, not 
 @st.composite
 def cases(draw, tier):
     d = D(draw)
+    if d.int(0, 149) == 0:
+        return gen.many_candidates_case(d, rules=model.ALL_RULES)       # candidate ids beyond 256, most of them withdrawn
     case = draw(gen.election_cases(tier=tier))
     if case['rule'] in model.GREGORY and d.p(2):
         case = gen.astronomic(d, case)      # an electorate beyond 2^53 ballots: Gregory counts are integer arithmetic throughout
